@@ -30,6 +30,13 @@ func vResetScenario(kind int) {
 	ob := Observe(obsEvt).Do(func(Entity) { fired++ }).Register(W.w)
 	res := NewResource[vRes](W.w)
 	res.Add(&vRes{1})
+	if vPick("remove-all-entities-before-reset", 2) == 1 {
+		W.w.RemoveEntities(NewFilter0(W.w).Batch(), nil)
+		for i := 0; i < W.n; i++ {
+			W.e[i].alive = false
+		}
+		fired = 0 // removal events of this batch are legitimate
+	}
 	W.w.Stats()
 	// lock bits were used and released in non-LIFO order before the Reset
 	qa := NewFilter1[vPos](W.w).Query()
@@ -104,6 +111,7 @@ func vResetScenario(kind int) {
 	f3.Unregister()
 	// the world is reusable: later operations behave as on a new world (model-based, as C01)
 	W.n = 0
+	W.standing[0] = nil
 	if vPick("shrink-after-reset", 2) == 1 {
 		vclockbound(3599_000_000_000)
 		var more bool
